@@ -153,6 +153,16 @@ def run_case(case, R):
     xgrid = np.sort(np.concatenate((np.exp(rng.uniform(np.log(1e-5), np.log(2e-2), 10)), [x0 * 0.5 if x0 else 1e-5, (x0 or 1e-4) * 3])))
     dft = _df(th, xgrid, T)
     R.check('c12.df_monotone_x', bool(np.all(np.diff(dft) > 0)), dict(mech, method='tangent'), T=T, x=xgrid, DF=dft)
+    # dilute end, down to exactly zero (what a precipitation model passes after its documented clamp of a negative matrix
+    # composition), asked one by one on the long-lived object: negative, never decreasing with x, increasing above the solver's
+    # composition resolution. Added after a run recorded +55 kJ/mol for pure aluminium (repaired in /repo 617a0a3).
+    xd = np.array([0.0, 1e-14, 1e-13, 5e-13, 1e-12, 1e-11, 1e-10, 1e-8, 1e-6])
+    for method in ('tangent', 'approximate', 'sampling', 'curvature'):
+        thm = _therm(method)
+        _df(thm, [float(xs[0]) * 1.5 if len(xs) else 1e-3], T)       # warm the cached equilibria at a supersaturated point first
+        dd = np.array([_df(thm, [xv], T)[0] for xv in xd])
+        ok = bool(np.all(np.isfinite(dd)) and np.all(dd < 0) and np.all(np.diff(dd) >= -1e-6 * np.abs(dd[:-1])) and np.all(np.diff(dd[5:]) > 0))
+        R.check('c12.df_monotone_x', ok, dict(mech, method=method, range='dilute'), T=T, x=xd, DF=dd)
     for method in ('approximate', 'sampling', 'curvature'):
         try:
             dm = _df(_therm(method), xgrid, T)
